@@ -841,6 +841,8 @@ class FragmentSender(object):
         self.user_callback = callback
 
         self.fragments = []
+        # the wire payload of each fragment: header (id, index, count) + data
+        self.payloads = []
         self.acks = []
 
     def build(self, payload):
@@ -866,6 +868,7 @@ class FragmentSender(object):
 
             payload = struct.pack(">HHH", self.frag_id, 1 + index, len(self.fragments))
             payload += fragment
+            self.payloads.append(payload)
             meta_callback = lambda success, idx=index: self.callback(idx, success)
 
             yield payload, meta_callback
@@ -875,7 +878,7 @@ class FragmentSender(object):
         if not success and self.retry != RetryMode.NONE:
             # resend the fragment that timed out
             cbk = lambda success, idx=index: self.callback(idx, success)
-            self.conn._send_type(PacketType.APP_FRAGMENT, self.fragments[index], self.retry, cbk)
+            self.conn._send_type(PacketType.APP_FRAGMENT, self.payloads[index], self.retry, cbk)
         else:
             self.acks[index] = success
 
